@@ -3,7 +3,7 @@
    types), so every datagram is the encoding of exactly one one-way message
    and decodes back to its batch (C16). *)
 From Coq Require Import ZArith List Bool Arith Lia.
-From Tally Require Import Base.Obs Base.Search Gen.Params Model.Varint Model.Thrift Model.Buckets Model.M3Pipe
+From Tally Require Import Base.ObsCore Base.Search Gen.Params Model.Varint Model.Thrift Model.Buckets Model.M3Pipe
   Proof.VarintP Proof.ThriftP Proof.ThriftC16P Proof.BucketsP Proof.M3PipeP Proof.M3PipeIdP.
 Import ListNotations.
 Open Scope Z_scope.
